@@ -13,24 +13,30 @@ TRANSLATE = {'modules': [
      'functions': ['_common_dtype', '_energy_constant', '_energy_transfer_t0',
                    'energy_transfer_direct_from_tof', 'energy_transfer_indirect_from_tof']},
 ]}
-RUN_FILES = ['Tie.v', 'Properties.v', 'Corr.v']
+RUN_FILES = ['Tie.v', 'Properties.v', 'PropertiesFloat.v', 'Corr.v']
 TRUSTED = [
     'tools/py2coq.py (syntactic translator, fail-closed)',
     'coq/Sem/Val.v: model of scipp unit algebra, dtype promotion, to_unit, astype, sqrt, where, comparisons (element-wise)',
     'coq/Sem/RInst.v: the R instance does not decide equality of unit multipliers in + - <= where (fail-closed, see file); the Q instance does',
     'coq/Sem/QInst.v rational approximation of sqrt (correspondence only)',
     'tools/harness/c05_impl.py + lib/kcorr.py (exact serialisation of operands/results)',
+    'Flocq 4.1.0 (Core, IEEE754.BinarySingleNaN) as the model of IEEE-754 arithmetic (coq/C05/NeverInf.v)',
 ]
 ASSUMPTIONS = [
     'theorems are over exact reals: NaN iff t <= t0 and the documented value otherwise; in floating point the decision may differ '
     'within 1e-12 relative of t0 (2e-5 in single precision; scipp unit conversion factors carry ~4e-14) (accepted either way by the correspondence, but an infinity is never accepted)',
-    '"never infinite" at float level is checked per case, not proved (partial): no OutInf among the observed results',
+    '"never infinite" at float level is proved (PropertiesFloat.v, Flocq binary64/binary32 with gradual underflow, R-level and IEEE data type) '
+    'for the chain d=rnd(t-t0)>0, d*d, scale/(d*d), E-/+q under magnitude hypotheses derived from the quantifier (2^-20<=t0, t<=2^60, '
+    '|E|<=2^30, scale<=2^73 [binary64] or scale<=2^52*t0^2 [binary32/64]); assumed: t0 and scale themselves are finite format numbers '
+    'within those bounds (their computation is not modelled in floating point; the correspondence run observes no infinity), scipp performs '
+    '- and / as single correctly rounded IEEE operations in _common_dtype and x**2 as x*x; the float theorems are not tied to the '
+    'regenerated term (hypotheses mapped to kernel sub-terms by comment; the real-number Tie.v ties the structure)',
 ]
 LEVEL_TEXT = ('Proof: for all positive Ei, Ef, L1, L2 in arbitrary units and all dtypes, the regenerated direct and indirect kernels '
               'return Ei-Ef (unit of the supplied energy) for t = L1/v(Ei)+L2/v(Ef), NaN iff t <= t0 of the fixed leg, the documented '
               'real value otherwise. Model of scipp primitives validated against scipp on arrival times at, around and far from the boundary.')
-LEVEL_NOTE = ('Trusted: Coq kernel; std-lib real axioms; py2coq; Sem/Val.v; float behaviour (boundary band, absence of inf) is observed '
-              'per case with a condition-aware bound, not proved.')
+LEVEL_NOTE = ('Trusted: Coq kernel; std-lib real axioms; py2coq; Sem/Val.v; boundary band observed per case with a condition-aware bound; '
+              'absence of inf proved for the value-branch chain under stated magnitude hypotheses (PropertiesFloat.v).')
 TECHNIQUE = 'Coq proof on regenerated terms (cbv + field over R, sqrt lemmas) + vm_compute correspondence with condition-aware tolerance'
 
 EUNITS = [('meV', 1.602176634e-22), ('J', 1.0), ('eV', 1.602176634e-19)]
